@@ -195,6 +195,8 @@ type world struct {
 	alwaysRetry bool
 	// injection, when set, runs once at the next lock-held injection
 	// point (operation name generation, learner callbacks).
+	doneHook     func()
+	doneHookRan  bool
 	injection    func()
 	injectionRan bool
 	execAuthGate gate
@@ -629,7 +631,7 @@ func (w *world) sync(wk *workerSim, kind string, prefer bool, completion string)
 	st := w.record("sync", fmt.Sprintf("worker=%d(queue=%d,sc=%d) kind=%s preferIdle=%v", wk.idx, wk.queue, wk.sizeClass, desc, prefer))
 	w.m.onSyncStart(wk, res, kind)
 	go func() {
-		resp, err := w.bq.Synchronize(ctx, req)
+		resp, err := w.bq.Synchronize(&hookCtx{Context: ctx, w: w}, req)
 		w.mu.Lock()
 		res.resp, res.err, res.returned = resp, err, true
 		w.mu.Unlock()
@@ -764,6 +766,143 @@ func (w *world) stepCancelSync() bool {
 	w.record("cancelSync", fmt.Sprintf("worker=%d", wk.idx))
 	wk.cancel()
 	w.quiesce()
+	return true
+}
+
+// ---------------------------------------------------------------- injection after the lock was dropped
+
+// hookCtx is the context handed to a Synchronize call. The scheduler asks
+// for its Done() channel when it sets up the select in which a worker
+// waits - after it has released its lock and, for a drained worker, after
+// it has captured the channel it is going to wait on. A one-shot hook
+// armed by the harness runs there, in the worker's own goroutine: an
+// operator call that lands exactly between "lock released" and "waiting".
+type hookCtx struct {
+	context.Context
+	w *world
+}
+
+func (c *hookCtx) Done() <-chan struct{} {
+	if f := c.w.doneHook; f != nil {
+		c.w.doneHook = nil
+		c.w.doneHookRan = true
+		f()
+	}
+	return c.Context.Done()
+}
+
+// stepSyncRacingDrainChange lets an idle worker synchronize (it is going to
+// wait: drained, or idle without queued work) and changes the drains of its
+// queue at the moment the call has released the lock and is about to wait.
+// A drain removed there must still wake the worker up (or it must not go
+// to sleep at all); a drain added there must not let it keep a task.
+func (w *world) stepSyncRacingDrainChange() bool {
+	cands := w.idleWorkers()
+	if len(cands) == 0 {
+		return false
+	}
+	wk := cands[rapid.IntRange(0, len(cands)-1).Draw(w.rt, "worker")]
+	if wk.reject != "" || wk.believes != nil {
+		return false
+	}
+	add := rapid.IntRange(0, 3).Draw(w.rt, "addInsteadOfRemove") == 0
+	var pat map[string]string
+	if add {
+		pat = drainPatterns[rapid.IntRange(0, 4).Draw(w.rt, "pattern")]
+	} else {
+		// Remove a drain the model knows (preferably one matching the worker).
+		qn := w.m.queueNameOf(wk)
+		keys := make([]string, 0, len(w.m.drains[qn]))
+		for k := range w.m.drains[qn] {
+			keys = append(keys, k)
+		}
+		if len(keys) == 0 {
+			return false
+		}
+		sort.Strings(keys)
+		pat = w.m.drains[qn][keys[rapid.IntRange(0, len(keys)-1).Draw(w.rt, "drain")]]
+	}
+	op := "removeDrain"
+	if add {
+		op = "addDrain"
+	}
+	rec := w.record("raceDrainChangeWithSynchronize", fmt.Sprintf("%s %v on the queue of worker %d lands after its next Synchronize has released the lock and before it waits", op, pat, wk.idx))
+	w.doneHookRan = false
+	w.doneHook = func() {
+		req := &buildqueuestate.AddOrRemoveDrainRequest{SizeClassQueueName: w.queueName(wk), WorkerIdPattern: pat}
+		var err error
+		if add {
+			_, err = w.bq.AddDrain(context.Background(), req)
+		} else {
+			_, err = w.bq.RemoveDrain(context.Background(), req)
+		}
+		if err == nil {
+			w.m.onDrain(wk, pat, add)
+		}
+	}
+	w.sync(wk, "idle", false, "")
+	if w.doneHookRan {
+		rec.Out = "raced"
+		w.m.label("drain_changed_between_unlock_and_wait")
+	} else {
+		// The call never waited (it got a task or an error at once).
+		w.doneHook = nil
+		rec.Out = "not raced"
+	}
+	return true
+}
+
+// stepExecuteRacingWakeUp: an Execute hands its task to a worker that is
+// blocked waiting for work; the woken call is held at the clock reading
+// that precedes its second lock section, an operator kills the task, and
+// only then the worker continues. Its answer must reflect the state it
+// finds under the lock (the task is gone), not what it saw or assumed
+// when it was woken.
+func (w *world) stepExecuteRacingWakeUp(instancePool []string) bool {
+	blocked := false
+	for _, wk := range w.workers {
+		if res := wk.inFlight; res != nil {
+			w.mu.Lock()
+			if !res.returned {
+				blocked = true
+			}
+			w.mu.Unlock()
+		}
+	}
+	if !blocked {
+		return false
+	}
+	rec := w.record("raceWakeUpWithKill", "the worker woken by the next Execute is held before it re-acquires the lock; the task is killed meanwhile")
+	before := len(w.streams)
+	w.clk.armGate()
+	w.stepExecute(instancePool)
+	if !w.clk.disarmGate() {
+		rec.Out = "nobody was woken"
+		return true
+	}
+	// The operation the new stream is attached to.
+	name := ""
+	if len(w.streams) > before {
+		name = w.m.streamOp[w.streams[len(w.streams)-1].id]
+	}
+	if name == "" {
+		w.clk.releaseGate()
+		w.quiesce()
+		rec.Out = "woken, but not by a new operation"
+		return true
+	}
+	st := killStatuses[rapid.IntRange(0, len(killStatuses)-1).Draw(w.rt, "killStatus")]
+	w.m.pre()
+	w.m.onKill(name, st)
+	_, err := w.bq.KillOperations(context.Background(), &buildqueuestate.KillOperationsRequest{
+		Filter: &buildqueuestate.KillOperationsRequest_Filter{Type: &buildqueuestate.KillOperationsRequest_Filter_OperationName{OperationName: name}},
+		Status: st,
+	})
+	w.quiesce()
+	w.clk.releaseGate()
+	w.quiesce()
+	rec.Out = "raced; kill: " + errString(err)
+	w.m.label("kill_between_wake_up_and_lock")
 	return true
 }
 
